@@ -35,7 +35,7 @@ def run(prop, tier, seed, replay=None):
         V.violation("footprint", {"obligation": "footprint extraction (translate/footprint.py)", "what": str(e)[-3000:]}, no_failing_input=True)
     L = flow.lean_stage(V, ["GivaroModel.Props.C18"], "GivaroModel/Props/C18.lean")
     offenders = [t for t in table if footprint.claimed(t) and (t["const_writes"] or t["pointee_writes"] or
-                                                                 [s for s in t["statics"] if s not in ("local:randstate", "write:randstate")])]
+                                                                 [s for s in t["statics"] if s not in ("local:randstate", "write:randstate", "Rational::flags")])]
     # dynamic cross-check under ThreadSanitizer
     binp = common.build_harness("h_threads", "T", cxx="clang++-14")
     env = dict(os.environ, TSAN_OPTIONS="halt_on_error=0 report_signal_unsafe=0 history_size=4")
